@@ -132,6 +132,19 @@ def judge(kind, stream, logs, T, C, S, P):
             if P is not None and P not in (pname, str(pid)):
                 continue
             el.append((i, tid, pid, pname))
+        # the PRINTED log listing under the filters = the lines the unfiltered printed listing gives for the same records
+        try:
+            f0 = PyKdebugParser()
+            f0.color = False
+            all_lines = list(f0.formatted_logs(io.BytesIO(blob)))
+            f1 = PyKdebugParser()
+            f1.color = False
+            f1.filter_tid, f1.filter_process = T, P
+            got_lines = list(f1.formatted_logs(io.BytesIO(blob)))
+            if len(all_lines) == len(logs) and got_lines != [all_lines[i] for i, _, _, _ in el]:
+                bad.append(('printed-log-lines-under-filter-differ-from-unfiltered-lines', {'got': got_lines[:3], 'expected': [all_lines[i] for i, _, _, _ in el][:3]}))
+        except Exception as ex:
+            bad.append(('formatted_logs-raised:' + type(ex).__name__, {'err': repr(ex)[:200]}))
         if [(getattr(x, 'size', None), getattr(x, 'thread_identifier', None), getattr(x, 'process_identifier', None), getattr(x, 'process', None)) for x in gl] != el:
             bad.append(('log-filter-wrong-subsequence', {'got': [(getattr(x, 'size', None), getattr(x, 'thread_identifier', None)) for x in gl], 'exp': el}))
     return bad
@@ -293,8 +306,9 @@ class C12(Check):
                0x0400fffd, 0x040cfffe, 0x04ffffff, 0xffffffff, 0x00000003]      # the last code of a subclass / class with the START, END, ALL qualifier
         recs = [B.rec(100 + i, (i, 0, 0, 0), 1, e) for i, e in enumerate(ids)]
         blob = B.v2([(1, 10, 'A')], 0, recs)
-        for C in ([], [4], [0], [0x40c], [0x404], [4, 0x40c], [0xff], [1, 4], [-1], [-252], [-257, 4]):
-            for S in ([], [4], [0x400], [0x40c], [0], [0x404], [0x40c, 0x109], [0x109, 0x40c], [0x301, 0x40c], [0x40c, 0x40c, 0x301], [0x401, 0x30c], [0x4ff], [0xffff, 0x1ff], [-1], [-0xfbf4], [-0x10001]):
+        for C in ([], [4], [0], [0x40c], [0x404], [4, 0x40c], [0xff], [1, 4], [-1], [-252], [-257, 4], [1, 2, 3, 5, 6, 7, 8, 9, 10], list(range(5, 40))):
+            for S in ([], [4], [0x400], [0x40c], [0], [0x404], [0x40c, 0x109], [0x109, 0x40c], [0x301, 0x40c], [0x40c, 0x40c, 0x301], [0x401, 0x30c], [0x4ff], [0xffff, 0x1ff], [-1], [-0xfbf4], [-0x10001],
+                      list(range(0x0401, 0x040d)), [1, 4, 0x109] + list(range(0x0300, 0x0310))):        # long lists: every subclass of a class; small values that are also class numbers
                 try:
                     got = [obs_event(e) for e in run_facade(blob, None, C, S, None, 'kevents')]
                 except Exception as ex:
